@@ -1,2 +1,269 @@
-/-! Line driver for C06 (stub; replaced when the model is written). -/
-def main : IO Unit := pure ()
+import MpVerif.C06.Model
+/-! Line driver for C06: same protocol as `harness/h_prepro.cc` (parsing and printing only; every decision is a
+call into `MpVerif.C06.Model`). -/
+open MpVerif.C06 MpVerif.C06.ER
+
+namespace C06Drv
+
+def stripTwos (n : Nat) (e : Int) (fuel : Nat) : Nat × Int :=
+  match fuel with
+  | 0 => (n, e)
+  | fuel + 1 => if n ≠ 0 ∧ n % 2 = 0 then stripTwos (n / 2) (e + 1) fuel else (n, e)
+
+def numStr (x : ER) : String :=
+  match x with
+  | .ninf => "-inf"
+  | .pinf => "inf"
+  | .nan => "nan"
+  | .fin q =>
+    if q = 0 then "0" else
+    let sgn := if q < 0 then "-" else ""
+    let n := q.num.natAbs
+    let d := q.den
+    let (d', ke) := stripTwos d 0 2000
+    if d' ≠ 1 then s!"{q.num}/{q.den}" else
+    let (m, e) := stripTwos n 0 2000
+    let e := e - ke
+    if e = 0 then s!"{sgn}{m}" else s!"{sgn}{m}p{e}"
+
+def parseNum (t : String) : Option ER :=
+  if t = "inf" then some .pinf
+  else if t = "-inf" then some .ninf
+  else
+    match t.splitOn "p" with
+    | [m] => m.toInt?.map fun z => ER.fin (z : Rat)
+    | [m, e] =>
+      match m.toInt?, e.toInt? with
+      | some mz, some ez => some (ER.fin ((mz : Rat) * (2 : Rat) ^ ez))
+      | _, _ => none
+    | _ => none
+
+def parseRat (t : String) : Option Rat :=
+  match parseNum t with
+  | some (.fin q) => some q
+  | _ => none
+
+structure Sess where
+  st : State := {}
+  pending : Array VarB := #[]
+  started : Bool := false
+  results : Array (Option Nat) := #[]
+  seenLb : Array ER := #[]
+  seenUb : Array ER := #[]
+
+def Sess.start (s : Sess) : Sess :=
+  if s.started then s else
+  { s with started := true,
+           st := { vars := s.pending, defs := s.pending.map (fun _ => none), fixed := [] },
+           seenLb := s.pending.map (·.lb), seenUb := s.pending.map (·.ub) }
+
+def Sess.var? (s : Sess) (t : String) : Option Nat :=
+  if t.startsWith "$" then
+    match (t.drop 1).toString.toNat? with
+    | some k => (s.results.getD k none)
+    | none => none
+  else
+    match t.toNat? with
+    | some v => if v < s.st.vars.size then some v else none
+    | none => none
+
+abbrev P := StateM (List String)
+
+def next? : StateM (List String) (Option String) := do
+  match (← get) with
+  | [] => return none
+  | t :: r => set r; return some t
+
+def pVars (s : Sess) (ts : List String) : Option (List Nat × List String) :=
+  match ts with
+  | [] => none
+  | k :: r =>
+    match k.toNat? with
+    | none => none
+    | some k =>
+      if k > 64 then none else
+      let rec go (n : Nat) (r : List String) (acc : List Nat) : Option (List Nat × List String) :=
+        match n with
+        | 0 => some (acc.reverse, r)
+        | n + 1 => match r with
+          | [] => none
+          | t :: r' => match s.var? t with
+            | some v => go n r' (v :: acc)
+            | none => none
+      go k r []
+
+def pLin (s : Sess) (ts : List String) : Option (LinT × List String) :=
+  match ts with
+  | [] => none
+  | k :: r =>
+    match k.toNat? with
+    | none => none
+    | some k =>
+      if k > 64 then none else
+      let rec go (n : Nat) (r : List String) (acc : LinT) : Option (LinT × List String) :=
+        match n with
+        | 0 => some (acc.reverse, r)
+        | n + 1 => match r with
+          | c :: v :: r' => match parseRat c, s.var? v with
+            | some c, some v => go n r' ((c, v) :: acc)
+            | _, _ => none
+          | _ => none
+      go k r []
+
+def pQuad (s : Sess) (ts : List String) : Option (QuadT × List String) :=
+  match ts with
+  | [] => none
+  | k :: r =>
+    match k.toNat? with
+    | none => none
+    | some k =>
+      if k > 64 then none else
+      let rec go (n : Nat) (r : List String) (acc : QuadT) : Option (QuadT × List String) :=
+        match n with
+        | 0 => some (acc.reverse, r)
+        | n + 1 => match r with
+          | c :: v1 :: v2 :: r' => match parseRat c, s.var? v1, s.var? v2 with
+            | some c, some v1, some v2 => go n r' ((c, v1, v2) :: acc)
+            | _, _, _ => none
+          | _ => none
+      go k r []
+
+def unFn? : String → Option UnFn
+  | "exp" => some .exp | "log" => some .log | "sin" => some .sin | "cos" => some .cos | "tan" => some .tan
+  | "asin" => some .asin | "acos" => some .acos | "atan" => some .atan | "sinh" => some .sinh | "cosh" => some .cosh
+  | "tanh" => some .tanh | "asinh" => some .asinh | "acosh" => some .acosh | "atanh" => some .atanh
+  | _ => none
+
+def unName : UnFn → String
+  | .exp => "exp" | .log => "log" | .sin => "sin" | .cos => "cos" | .tan => "tan" | .asin => "asin" | .acos => "acos"
+  | .atan => "atan" | .sinh => "sinh" | .cosh => "cosh" | .tanh => "tanh" | .asinh => "asinh" | .acosh => "acosh"
+  | .atanh => "atanh"
+
+def parseCon (s : Sess) (ts : List String) : Option Con :=
+  match ts with
+  | "lin" :: c0 :: r => do
+    let c0 ← parseRat c0; let (lt, r) ← pLin s r; if r ≠ [] then none else some (.lin c0 lt)
+  | "quad" :: c0 :: r => do
+    let c0 ← parseRat c0; let (lt, r) ← pLin s r; let (qt, r) ← pQuad s r
+    if r ≠ [] then none else some (.quad c0 lt qt)
+  | ["pow", a, p] => do some (.pow (← s.var? a) (← parseRat p))
+  | ["expa", a, p] => do some (.unp .expa (← s.var? a) (← parseRat p))
+  | ["loga", a, p] => do some (.unp .loga (← s.var? a) (← parseRat p))
+  | "min" :: r => do let (a, r) ← pVars s r; if r ≠ [] then none else some (.min a)
+  | "max" :: r => do let (a, r) ← pVars s r; if r ≠ [] then none else some (.max a)
+  | "and" :: r => do let (a, r) ← pVars s r; if r ≠ [] then none else some (.and a)
+  | "or" :: r => do let (a, r) ← pVars s r; if r ≠ [] then none else some (.or a)
+  | "alldiff" :: r => do let (a, r) ← pVars s r; if r ≠ [] then none else some (.alldiff a)
+  | "count" :: r => do let (a, r) ← pVars s r; if r ≠ [] then none else some (.count a)
+  | "nvar" :: r => do let (a, r) ← pVars s r; if r ≠ [] then none else some (.nvar a)
+  | "nconst" :: k :: r => do
+    let k ← parseRat k; let (a, r) ← pVars s r; if r ≠ [] then none else some (.nconst k a)
+  | ["abs", a] => do some (.abs (← s.var? a))
+  | ["not", a] => do some (.not (← s.var? a))
+  | ["div", a, b] => do some (.div (← s.var? a) (← s.var? b))
+  | ["ifthen", a, b, c] => do some (.ifthen (← s.var? a) (← s.var? b) (← s.var? c))
+  | ["impl", a, b, c] => do some (.impl (← s.var? a) (← s.var? b) (← s.var? c))
+  | "clin" :: kind :: rhs :: r => do
+    let kind ← kind.toInt?; let rhs ← parseRat rhs; let (lt, r) ← pLin s r
+    if r ≠ [] ∨ kind < -2 ∨ kind > 2 then none else some (.clin kind rhs lt)
+  | "cquad" :: kind :: rhs :: r => do
+    let kind ← kind.toInt?; let rhs ← parseRat rhs; let (lt, r) ← pLin s r; let (qt, r) ← pQuad s r
+    if r ≠ [] ∨ kind < -2 ∨ kind > 2 then none else some (.cquad kind rhs lt qt)
+  | [f, a] => do some (.un (← unFn? f) (← s.var? a))
+  | _ => none
+
+def linStr (ts : LinT) : String :=
+  ts.foldl (fun acc t => acc ++ s!" {numStr (.fin t.1)} {t.2}") (toString ts.length)
+def quadStr (qs : QuadT) : String :=
+  qs.foldl (fun acc t => acc ++ s!" {numStr (.fin t.1)} {t.2.1} {t.2.2}") (toString qs.length)
+def argsStr (as : List Nat) : String :=
+  as.foldl (fun acc v => acc ++ s!" {v}") (toString as.length)
+
+def conStr : Con → String
+  | .lin c0 ts => s!"lin {numStr (.fin c0)} {linStr ts}"
+  | .quad c0 ts qs => s!"quad {numStr (.fin c0)} {linStr ts} {quadStr qs}"
+  | .pow a p => s!"pow {a} {numStr (.fin p)}"
+  | .min as => s!"min {argsStr as}"
+  | .max as => s!"max {argsStr as}"
+  | .and as => s!"and {argsStr as}"
+  | .or as => s!"or {argsStr as}"
+  | .alldiff as => s!"alldiff {argsStr as}"
+  | .count as => s!"count {argsStr as}"
+  | .nvar as => s!"nvar {argsStr as}"
+  | .nconst k as => s!"nconst {numStr (.fin k)} {argsStr as}"
+  | .abs a => s!"abs {a}"
+  | .not a => s!"not {a}"
+  | .div a b => s!"div {a} {b}"
+  | .ifthen a b c => s!"ifthen {a} {b} {c}"
+  | .impl a b c => s!"impl {a} {b} {c}"
+  | .clin k rhs ts => s!"clin {k} {numStr (.fin rhs)} {linStr ts}"
+  | .cquad k rhs ts qs => s!"cquad {k} {numStr (.fin rhs)} {linStr ts} {quadStr qs}"
+  | .un f a => s!"{unName f} {a}"
+  | .unp .expa a p => s!"expa {a} {numStr (.fin p)}"
+  | .unp .loga a p => s!"loga {a} {numStr (.fin p)}"
+
+def Sess.tail (s : Sess) : Sess × String := Id.run do
+  let mut out := ""
+  let mut lb := s.seenLb
+  let mut ub := s.seenUb
+  for v in [0:s.seenLb.size] do
+    let b := s.st.env v
+    if b.lb ≠ lb.getD v .nan ∨ b.ub ≠ ub.getD v .nan then
+      out := out ++ s!" | narrowed {v} {numStr b.lb} {numStr b.ub}"
+      lb := lb.setIfInBounds v b.lb
+      ub := ub.setIfInBounds v b.ub
+  for v in [s.seenLb.size:s.st.vars.size] do
+    let b := s.st.env v
+    let d := match s.st.defs.getD v none with
+      | some c => conStr c
+      | none => "none"
+    out := out ++ s!" | v {v} {numStr b.lb} {numStr b.ub} {if b.int then "1" else "0"} {d}"
+    lb := lb.push b.lb
+    ub := ub.push b.ub
+  return ({ s with seenLb := lb, seenUb := ub }, out)
+
+def step (s : Sess) (line : String) : Sess × String :=
+  match (line.trimAscii.toString.splitOn " ").filter (· ≠ "") with
+  | ["case", _] => ({}, "ok")
+  | ["var", l, u, t] =>
+    if s.started then (s, "bad-op") else
+    match parseNum l, parseNum u, t.toNat? with
+    | some l, some u, some t => ({ s with pending := s.pending.push { lb := l, ub := u, int := t ≠ 0 } }, "ok")
+    | _, _, _ => (s, "bad-op")
+  | "op" :: rest =>
+    let s := s.start
+    match parseCon s rest with
+    | none => (s, "bad-op")
+    | some c =>
+      let (st', r) := s.st.assign c.construct
+      match r with
+      | .const cst =>
+        let (st'', v) := State.resultVar (st', r)
+        let s' := { s with st := st'', results := s.results.push v }
+        let (s'', t) := s'.tail
+        (s'', s!"const {numStr cst}" ++ t)
+      | .var v =>
+        let s' := { s with st := st', results := s.results.push (some v) }
+        let (s'', t) := s'.tail
+        (s'', s!"var {v}" ++ t)
+      | .throw w =>
+        let s' := { s with st := st', results := s.results.push none }
+        let (s'', t) := s'.tail
+        (s'', s!"throw {w}" ++ t)
+      | .unsupported =>
+        let s' := { s with st := st', results := s.results.push none }
+        (s', "unsupported")
+  | _ => (s, "bad-op")
+
+end C06Drv
+
+partial def loop (h : IO.FS.Stream) (out : IO.FS.Stream) (s : C06Drv.Sess) : IO Unit := do
+  let line ← h.getLine
+  if line.isEmpty then return ()
+  let (s', o) := C06Drv.step s line
+  out.putStrLn o
+  loop h out s'
+
+def main : IO Unit := do
+  let out ← IO.getStdout
+  loop (← IO.getStdin) out {}
